@@ -444,7 +444,8 @@ class FlowGen:
             self.features.add("exit-in-expression")
             ex = ("blocke", ("block", [e], [], None))
             if ch.bool(0.4):
-                ex = ("ife", [(self.cond(vars_), [e])], None)
+                ex = ("ife", [(self.cond(vars_), [e])],
+                      [("expr", ("int", 0))])
             ctx = ch.choice(["log-arg", "call-arg", "operand", "setindex",
                              "map-value", "set-elem", "obj-member",
                              "setmember", "named-arg", "index", "cond"])
@@ -454,7 +455,7 @@ class FlowGen:
             if ctx == "call-arg":
                 return [log(call("chk", ("int", self.tag()), ex))]
             if ctx == "named-arg":
-                return [log(("call", "chk", [("named", "v", ex),
+                return [log(("call", ("var", "chk"), [("named", "v", ex),
                                              ("named", "t",
                                               ("int", self.tag()))]))]
             if ctx == "operand":
